@@ -254,7 +254,48 @@ def rng_table():
             helpers.append((m.group(1), hf.split('/')[-1], takes_engine, has_static))
     if len(helpers) < 4:
         raise extract.ExtractError('C16Rng: sampling helpers of Utils/Probability not found (%d)' % len(helpers))
-    return {'engines': engines, 'ctors': ctors, 'outside': outside, 'nuses': nuses, 'get_ok': get_ok, 'set_ok': set_ok, 'get_text': gs, 'set_text': rs, 'helpers': helpers}
+    # member-function bodies that construct an engine-owning object locally: such a call draws a seed from Seeder
+    names = sorted({q.split('::')[-1].split('<')[0] for q, _, _, _ in engines} - {'Model', 'SparseModel', 'PolicyInterface'})
+    pol = set()
+    for f in files:
+        for m in re.finditer(r'\bclass\s+(\w*Policy)\s*(?:final\s*)?:\s*public', srcs[f]):
+            pol.add(m.group(1))
+    names = sorted(set(names) | pol)
+    local = []
+    pat = re.compile(r'(?:^|[;{}])\s*(?:const\s+)?(?:[\w:]+::)?(' + '|'.join(map(re.escape, names)) + r')\b\s*(?:<[^;{}()]*>)?\s+(\w+)\s*[({][^;]*;', re.M)
+    for f in files:
+        s0 = srcs[f]
+        for m in pat.finditer(s0):
+            # inside a function body: the nearest enclosing '{' is preceded by ')' (possibly with const/noexcept/initialisers)
+            depth, i = 0, m.start(1)
+            while i > 0:
+                i -= 1
+                if s0[i] == '}':
+                    depth += 1
+                elif s0[i] == '{':
+                    if depth == 0:
+                        break
+                    depth -= 1
+            head = s0[max(0, i - 200):i]
+            if re.search(r'\)\s*(?:const\s*)?(?:noexcept\s*)?(?::[^{};]*)?$', head) or re.search(r'\b(?:for|while|if|else|do)\b[^{};]*$', head):
+                local.append('%s: %s %s' % (f[len('include/AIToolbox/'):] if f.startswith('include/AIToolbox/') else f, m.group(1), m.group(2)))
+    # LinearSupport's agenda_: the do-while can only be left through the empty-agenda test
+    ls = srcs.get('include/AIToolbox/POMDP/Algorithms/LinearSupport.hpp')
+    if ls is None:
+        raise extract.ExtractError('C16Rng: LinearSupport.hpp not found')
+    mo = extract.find1(r'LinearSupport::operator\(\)\s*\(const M\s*&\s*model\)\s*\{', ls, 'LinearSupport::operator()')
+    b0 = mo.end() - 1
+    body = ls[b0:_match_paren(ls, b0, '{', '}')]
+    d0 = body.find('do {'); d1 = _match_paren(body, body.find('{', d0), '{', '}')
+    loop = body[d0:d1 + 1]
+    ls_facts = {
+        'doWhileTrue': bool(re.match(r'\s*while\s*\(\s*true\s*\)\s*;', body[d1 + 1:d1 + 40])),
+        'onlyExitIsEmptyTest': len(re.findall(r'\bbreak\s*;', loop)) == 1 and re.search(r'if\s*\(\s*agenda_\.size\(\)\s*==\s*0\s*\)\s*break\s*;', loop) is not None
+                                and not re.search(r'\breturn\b|\bgoto\b|\bthrow\b', loop),
+        'agendaOps': sorted(set(re.findall(r'agenda_\.(\w+)', body))),
+        'agendaUsedOutsideLoop': bool(re.search(r'agenda_', body[:d0] + body[d1 + 1:])),
+    }
+    return {'local': local, 'ls': ls_facts, 'engines': engines, 'ctors': ctors, 'outside': outside, 'nuses': nuses, 'get_ok': get_ok, 'set_ok': set_ok, 'get_text': gs, 'set_text': rs, 'helpers': helpers}
 
 
 def gen_rng():
@@ -275,7 +316,18 @@ def gen_rng():
           '/-- (sampling helper, file, last parameter is the engine taken by reference, body declares a non-const `static` / `thread_local`) -/',
           'def samplingHelpers : List (String × String × Bool × Bool) := [']
     b.append(',\n'.join('  (%s, %s, %s, %s)' % (lstr(n), lstr(f), 'true' if a else 'false', 'true' if s else 'false') for n, f, a, s in t['helpers']))
-    b += [']', '', 'end AITB.Gen.C16Rng', '']
+    b += [']', '', '/-- local constructions of an engine-owning object (or a policy: `PolicyInterface` owns the engine) inside a function body: the',
+          '    enclosing call draws seed(s) from `Seeder` ("file: Class variable") -/',
+          'def callsThatDrawSeeds : List String := [' + ', '.join(lstr(x) for x in t['local']) + ']', '',
+          '/-- `LinearSupport::operator()`: the inner loop is `do { … } while (true);` -/',
+          'def lsDoWhileTrue : Bool := %s' % ('true' if t['ls']['doWhileTrue'] else 'false'),
+          '/-- … whose body has exactly one `break`, guarded by `if (agenda_.size() == 0)`, and no `return`/`goto`/`throw` -/',
+          'def lsOnlyExitIsEmptyTest : Bool := %s' % ('true' if t['ls']['onlyExitIsEmptyTest'] else 'false'),
+          '/-- member functions of `agenda_` used by the call -/',
+          'def lsAgendaOps : List String := [' + ', '.join(lstr(x) for x in t['ls']['agendaOps']) + ']',
+          '/-- `agenda_` mentioned in `operator()` outside that loop (a `clear()` before it would make the call `resetAtCall`) -/',
+          'def lsAgendaUsedOutsideLoop : Bool := %s' % ('true' if t['ls']['agendaUsedOutsideLoop'] else 'false'),
+          '', 'end AITB.Gen.C16Rng', '']
     extract.write_if_changed('C16Rng', '\n'.join(b))
     return t
 
@@ -290,5 +342,7 @@ if __name__ == '__main__':
         print('ctor  ', c)
     print('outside', t['outside'])
     print('get_ok', t['get_ok'], 'set_ok', t['set_ok'])
+    print('local', t['local'])
+    print('ls', t['ls'])
     for h in t['helpers']:
         print('helper', h)
